@@ -273,6 +273,41 @@ func genC10(ctx *Ctx) {
 		}
 		ctx.Input(mInput(tpl, vars, expect), len(ast) >= 2)
 	}
+	// malformed stream: a well-formed template broken in one place must be rejected
+	for i := 0; i < ctx.N; i++ {
+		ast := genMNodes(ctx.Rnd, 1+ctx.Rnd.Intn(3))
+		if !mWellFormed(ast, false) {
+			continue
+		}
+		tpl := mPrint(ctx.Rnd, ast)
+		if strings.Trim(tpl, " \t\r\n") != tpl || tpl == "" {
+			continue
+		}
+		var bad, why string
+		switch ctx.Rnd.Intn(5) {
+		case 0:
+			bad, why = tpl+"{{#zz}}tail", "unclosed section"
+		case 1:
+			bad, why = tpl+"{{/zz}}", "unopened section"
+		case 2:
+			bad, why = "{{#aa}}"+tpl+"{{/bb}}", "mismatched section"
+		case 3:
+			bad, why = tpl+"{{ x", "unclosed tag"
+		default:
+			switch ctx.Rnd.Intn(4) {
+			case 0:
+				bad, why = "{{{! c }}"+tpl+"{{{v}}}", "mismatched brace counts on a comment"
+			case 1:
+				bad, why = tpl+"{{v}}}", "mismatched brace counts"
+			case 2:
+				bad, why = "{{{v}}"+tpl, "mismatched brace counts"
+			default:
+				bad, why = "{{! c }}}x{{y}}}"+tpl, "mismatched brace counts on a comment"
+			}
+		}
+		ctx.Count("malformed:" + why)
+		ctx.Input(mInput(bad, genVars(ctx.Rnd), sx.L(sx.S(why))), true)
+	}
 	// accept / reject: concatenations of template lexemes
 	lex := []string{"{{", "}}", "{{{", "}}}", "#", "/", "^", "!", "if", "unless", "a", "B", " ", "text", "'", "\"", "{", "}", "."}
 	depth := 3
@@ -328,9 +363,14 @@ func runC10(in sx.SX) (sx.SX, string) {
 	}
 	t := mustache.NewMustacheTemplate()
 	t.SetAutoVariables(false)
+	t.SetTemplate("warm {{up}}") // the template object is reused: nothing of an earlier template may survive
 	fail := ""
 	var obs sx.SX
 	expect := sx.AsList(l[4])
+	mustReject := len(expect) == 1
+	if mustReject {
+		expect = nil
+	}
 	if err := t.SetTemplate(text); err != nil {
 		c, ok := mErrCodes[codeOf(err)]
 		if !ok {
@@ -342,6 +382,9 @@ func runC10(in sx.SX) (sx.SX, string) {
 			fail = "a well-formed template was rejected: " + err.Error()
 		}
 	} else {
+		if mustReject {
+			fail = "a malformed template (" + sx.AsString(sx.AsList(l[4])[0]) + ") was accepted"
+		}
 		// the tokens the model is given are the tokens the parser saw
 		orig := t.OriginalTokens()
 		given := sx.AsList(l[1])
